@@ -93,7 +93,72 @@ func tallFamily(c *Ctx, prop string) {
 			}
 		}
 	}
-	c.Cov.Bound["tall.N"] = "16,17,31,32,33,63,64,65"
+	if !c.Thorough() {
+		runs = runs[:0] // quick tier: only the medium family below
+	}
+	// medium family: 11..13 leaves with irregular deletion patterns, three blocks deep:
+	// [add N][delete S, add k][delete T], S = every subset of size <= 3 (quick: <= 2) and every
+	// subset of the window of slots 2..9, k in {0,1,3}, T = nothing, every single live leaf, every
+	// pair of neighbouring live leaves
+	medNs := []int{11, 12, 13}
+	maxS := 3
+	if !c.Thorough() {
+		medNs, maxS = []int{12}, 2
+	}
+	for _, N := range medNs {
+		seen := map[string]bool{}
+		var sets [][]int
+		add := func(x []int) {
+			if len(x) > 0 && !seen[fmt.Sprint(x)] {
+				seen[fmt.Sprint(x)] = true
+				sets = append(sets, x)
+			}
+		}
+		for a := 0; a < N; a++ {
+			add([]int{a})
+			for b := a + 1; b < N; b++ {
+				add([]int{a, b})
+				if maxS >= 3 {
+					for d := b + 1; d < N; d++ {
+						add([]int{a, b, d})
+					}
+				}
+			}
+		}
+		for mask := 1; mask < 256; mask++ {
+			var x []int
+			for j := 0; j < 8; j++ {
+				if mask&(1<<uint(j)) != 0 {
+					x = append(x, 2+j)
+				}
+			}
+			add(x)
+		}
+		for _, S := range sets {
+			dead := map[int]bool{}
+			for _, d := range S {
+				dead[d] = true
+			}
+			for _, k := range []int{0, 1, 3} {
+				var live []int
+				for x := 0; x < N+k; x++ {
+					if !dead[x] {
+						live = append(live, x)
+					}
+				}
+				base := []Op{{Kind: "block", Adds: N}, {Kind: "block", Dels: S, Adds: k}}
+				runs = append(runs, run{base})
+				for j, a := range live {
+					runs = append(runs, run{append(append([]Op(nil), base...), Op{Kind: "block", Dels: []int{a}})})
+					if j+1 < len(live) && c.Thorough() {
+						runs = append(runs, run{append(append([]Op(nil), base...), Op{Kind: "block", Dels: []int{a, live[j+1]}})})
+					}
+				}
+			}
+		}
+	}
+	c.Cov.Bound["medium.N"] = fmt.Sprint(medNs)
+	c.Cov.Bound["tall.N"] = "16,17,31,32,33,63,64,65 (thorough only)"
 	c.Cov.Bound["tall.runs"] = len(runs)
 	var evals, done int64
 	ok := parallelFor(c, len(runs), func(i int) {
